@@ -1048,6 +1048,9 @@ def _awkward_deck():
     cn[1].set("name", "TextBox 2")
     cn[2].set("name", "TextBox 2")
     prs.slides[1].shapes[0]._element.xpath(".//p:cNvPr")[0].set("id", "40")
+    # notes slides numbered in creation order, not in slide order: notesSlide1 belongs to the third slide, notesSlide2 to the second
+    prs.slides[2].notes_slide.notes_text_frame.text = "n3"
+    prs.slides[1].notes_slide.notes_text_frame.text = "n2"
     ids = prs.slides._sldIdLst.sldId_lst
     ids[1].set("id", "2147483646")
     ids[2].set("id", "300")
@@ -1055,6 +1058,10 @@ def _awkward_deck():
     prs.save(buf)
     ren = {"slide1.xml": "slide7.xml", "slide2.xml": "slide3.xml", "slide3.xml": "slide9.xml"}
     src = zipfile.ZipFile(io.BytesIO(buf.getvalue()))
+    # whatever numbers the library gave the two notes slides, they become notesSlide1 and notesSlide2 (so the first slide, which has
+    # no notes, is NOT the owner of notesSlide1): numbering in creation order, as PowerPoint does
+    notes = sorted((n for n in src.namelist() if re.fullmatch(r"ppt/notesSlides/notesSlide\d+\.xml", n)), key=lambda n: int(re.findall(r"\d+", n)[-1]))
+    nren = {n.split("/")[-1]: "notesSlide%d.xml" % (i + 1) for i, n in enumerate(notes)}
     out = io.BytesIO()
     with zipfile.ZipFile(out, "w") as z:
         for n in src.namelist():
@@ -1063,8 +1070,10 @@ def _awkward_deck():
             m = re.fullmatch(r"ppt/slides/(_rels/)?(slide\d+\.xml)(\.rels)?", n)
             if m:
                 n2 = "ppt/slides/%s%s%s" % (m.group(1) or "", "TMP" + ren[m.group(2)], m.group(3) or "")
-            for a, b in ren.items():
-                d = re.sub(rb'(["/])' + a.encode() + rb'"', lambda mm: mm.group(1) + b"TMP" + b.encode() + b'"', d)
+            m = re.fullmatch(r"ppt/notesSlides/(_rels/)?(notesSlide\d+\.xml)(\.rels)?", n)
+            if m:
+                n2 = "ppt/notesSlides/%s%s%s" % (m.group(1) or "", "TMP" + nren[m.group(2)], m.group(3) or "")
+            d = re.sub(rb'(["/])((?:slide|notesSlide)\d+\.xml)"', lambda mm: mm.group(1) + b"TMP" + {**ren, **nren}.get(mm.group(2).decode(), mm.group(2).decode()).encode() + b'"', d)
             if n == "ppt/slides/slide3.xml":
                 # a foreign attribute named id with a non-numeric value somewhere in the part
                 d = d.replace(b"<p:cSld>", b'<p:cSld><!-- x -->', 1).replace(b"<a:bodyPr", b'<a:bodyPr id="abc"', 1)
